@@ -90,6 +90,10 @@ def scenarios(draw):
     sc["input_mode"] = src.choice(["bam", "bam", "yaml"])
     sc["relative"] = src.bool(0.5)
     sc["out_suffix"] = src.choice(["", "", "[1]", "_x*"])
+    # name of the experiment (= of its folder inside the output folder): a hidden folder is a folder like any other
+    sc["prefix"] = src.choice(["OUT", "OUT", "OUT", ".v2", "s.1"])
+    if sc["prefix"] != "OUT":
+        sc["opts"] += ["--prefix", sc["prefix"]]
     return sc
 
 
@@ -124,7 +128,7 @@ def prepare(sc, d):
         yp = os.path.join(d, "in", "dataset.yaml")
         with open(yp, "w") as f:
             json.dump([{"data format": "bam"},
-                       {"name": "OUT", "long read files": [os.path.basename(b) for b in paths["bams"]]}], f)
+                       {"name": sc.get("prefix", "OUT"), "long read files": [os.path.basename(b) for b in paths["bams"]]}], f)
         paths["yaml"] = yp
     return paths, extra
 
@@ -138,6 +142,9 @@ def argv_for(sc, paths, out, extra):
         while j < len(argv) and not argv[j].startswith("--"):
             j += 1
         argv[i:j] = ["--yaml", paths["yaml"]]
+        if "--prefix" in argv:                       # the YAML description names the experiment
+            k_ = argv.index("--prefix")
+            del argv[k_:k_ + 2]
     cwd = os.path.dirname(paths["fasta"])
     if sc.get("relative"):
         pre = cwd + os.sep
@@ -267,7 +274,7 @@ def enumerate_scenario(sc, ctx, shard, nshards, modes, stride=1, double_stride=2
                                   {"k": k, "of": n, "mode": mode, "mutation": label, "exit": rcode,
                                    "log": r.log_tail(6)}, case)
                 else:
-                    diffs = compare.diff_dirs(clean_out, "OUT", out, "OUT")
+                    diffs = compare.diff_dirs(clean_out, sc.get("prefix", "OUT"), out, sc.get("prefix", "OUT"))
                     for kind, f, det in diffs:
                         ctx.violation("C07:resumed-output-%s:%s-phase:%s" % (
                             "differs" if kind == "content" else "missing" if kind == "only-in-first" else "extra",
@@ -351,7 +358,7 @@ def double_kill(sc, d, paths, extra, stale, clean_out, case, phase, ctx, n=None)
             ctx.violation("C07:resume-aborts:%s-phase:%s:after-a-killed-resume" % (phase, r.crash_signature().split("@")[0]),
                           dict(det, exit=rcode, log=r.log_tail(6)), case)
         else:
-            for kind, f, dd in compare.diff_dirs(clean_out, "OUT", out, "OUT"):
+            for kind, f, dd in compare.diff_dirs(clean_out, sc.get("prefix", "OUT"), out, sc.get("prefix", "OUT")):
                 ctx.violation("C07:resumed-output-%s:%s-phase:%s:after-a-killed-resume" % (
                     "differs" if kind == "content" else "missing" if kind == "only-in-first" else "extra", phase, f),
                     dict(det, file=f, detail=dd), case)
@@ -392,6 +399,9 @@ def run_enumeration(shard, nshards, seed, n, ctx, tier="quick"):
             sc["gz_reference"] = i % 4 == 1
             sc["stale_other_reference"] = True
             sc["stale_force"] = i % 4 == 3
+            if i == 1 and "--prefix" not in sc["opts"]:
+                sc["prefix"] = ".v2"
+                sc["opts"] += ["--prefix", ".v2"]
             if "--check_canonical" not in sc["opts"]:
                 sc["opts"] += ["--check_canonical"]
         enumerate_scenario(sc, ctx, shard, nshards, modes, double_stride=2 if tier == "quick" else 1)
@@ -430,7 +440,7 @@ def eval_replay(case, ctx):
             ctx.violation("C07:resume-aborts:%s-phase:%s" % (phase, r.crash_signature().split("@")[0]),
                           {"k": k, "mode": mode, "mutation": case["label"], "exit": rcode, "log": r.log_tail(6)}, case)
         else:
-            for kind, f, det in compare.diff_dirs(clean_out, "OUT", out, "OUT"):
+            for kind, f, det in compare.diff_dirs(clean_out, sc.get("prefix", "OUT"), out, sc.get("prefix", "OUT")):
                 ctx.violation("C07:resumed-output-%s:%s-phase:%s" % (
                     "differs" if kind == "content" else "missing" if kind == "only-in-first" else "extra", phase, f),
                     {"k": k, "mode": mode, "mutation": case["label"], "file": f, "detail": det}, case)
@@ -520,6 +530,10 @@ def run_shared_saves(shard, nshards, seed, n, ctx, tier="quick"):
         sc["grouping"] = ["tag", "none"][i % 2]
         sc["gz_reference"] = False
         sc["stale_dir"] = False
+        if "--prefix" in sc["opts"]:
+            k_ = sc["opts"].index("--prefix")
+            del sc["opts"][k_:k_ + 2]
+        sc["prefix"] = "OUT"
         d = ctx.scratch()
         try:
             got = saved_run(sc, d, ctx)
